@@ -8,11 +8,27 @@ import (
 	"io"
 	"math"
 	"math/rand"
+	"os"
+	"path/filepath"
+	"sort"
+	"sync"
+	"time"
 
+	"github.com/go-kit/log"
+	"github.com/oklog/ulid/v2"
 	"github.com/prometheus/client_golang/prometheus"
+	"github.com/prometheus/prometheus/model/labels"
+	"github.com/prometheus/prometheus/tsdb/chunks"
+	"github.com/prometheus/prometheus/tsdb/index"
+	"github.com/thanos-io/objstore"
 	"google.golang.org/grpc"
+	"google.golang.org/grpc/codes"
+	"google.golang.org/grpc/status"
 
+	"github.com/thanos-io/thanos/pkg/block"
+	"github.com/thanos-io/thanos/pkg/block/metadata"
 	"github.com/thanos-io/thanos/pkg/store"
+	"github.com/thanos-io/thanos/pkg/testutil/e2eutil"
 	"github.com/thanos-io/thanos/pkg/store/labelpb"
 	"github.com/thanos-io/thanos/pkg/store/storepb"
 	"github.com/thanos-io/thanos/zzverif/common"
@@ -24,12 +40,25 @@ type resp struct {
 	Batch  []int  `json:"batch,omitempty"`  // chunk count per entry; -1 = nil entry
 }
 
+type mreq struct {
+	T string `json:"t"` // = != =~ !~
+	N string `json:"n"`
+	V string `json:"v"`
+}
+
 type input struct {
-	Kind  string   `json:"kind"` // limiter | server
+	Kind  string   `json:"kind"` // limiter | server | store
 	Limit uint64   `json:"limit"`
 	Nums  []uint64 `json:"nums,omitempty"`
 	CLim  uint64   `json:"samples_limit,omitempty"`
 	Resps []resp   `json:"resps,omitempty"`
+	// store: a Series request against the fixture blocks; Limit = series limit, ChunkLimit = chunks limit
+	ChunkLimit uint64 `json:"chunk_limit,omitempty"`
+	Mint       int64  `json:"mint,omitempty"`
+	Maxt       int64  `json:"maxt,omitempty"`
+	Matchers   []mreq `json:"matchers,omitempty"`
+	SkipChunks bool   `json:"skip_chunks,omitempty"`
+	SmallBatch bool   `json:"small_batch,omitempty"` // store with series batch size 2
 }
 
 func facts(repo string, w io.Writer) error {
@@ -83,6 +112,304 @@ func mkSeries(i, chunks int) *storepb.Series {
 	return s
 }
 
+// ---- real BucketStore over fixture blocks ---------------------------------------
+
+type fseries struct {
+	lset labels.Labels
+	chks []chunks.Meta
+}
+
+type fblock struct {
+	id         ulid.ULID
+	mint, maxt int64
+	series     []fseries // in postings (label) order, read with the Prometheus index reader
+}
+
+type recLimiter struct {
+	inner *store.Limiter
+	mtx   *sync.Mutex
+	log   *[]uint64
+}
+
+func (r *recLimiter) Reserve(n uint64) error {
+	r.mtx.Lock()
+	*r.log = append(*r.log, n)
+	r.mtx.Unlock()
+	return r.inner.Reserve(n)
+}
+
+type fixture struct {
+	blocks      []fblock
+	stores      [2]*store.BucketStore // default batch size, batch size 2
+	mtx         sync.Mutex
+	slim, clim  uint64
+	sres, cres  []uint64
+	initialized bool
+	err         error
+}
+
+var fx fixture
+
+var extLset = labels.FromStrings("ext", "1")
+
+func (f *fixture) init() error {
+	if f.initialized {
+		return f.err
+	}
+	f.initialized = true
+	f.err = f.build()
+	return f.err
+}
+
+func (f *fixture) build() error {
+	ctx := context.Background()
+	dir, err := os.MkdirTemp("", "verif-c09")
+	if err != nil {
+		return err
+	}
+	bkt := objstore.NewInMemBucket()
+	mk := func(as, bs []string) []labels.Labels {
+		var out []labels.Labels
+		for _, a := range as {
+			for _, b := range bs {
+				out = append(out, labels.FromStrings("a", a, "b", b))
+			}
+		}
+		return out
+	}
+	const h = int64(3600000)
+	specs := []struct {
+		series     []labels.Labels
+		n          int
+		mint, maxt int64
+	}{
+		{mk([]string{"1", "2"}, []string{"1", "2", "3"}), 250, 0, 2 * h},     // 3 chunks per series
+		{mk([]string{"1", "2", "3"}, []string{"1", "2"}), 130, 2 * h, 4 * h}, // 2 chunks per series
+		{mk([]string{"3", "4"}, []string{"1", "4"}), 10, h, 3 * h},           // 1 chunk per series, overlaps both
+	}
+	for _, sp := range specs {
+		id, err := e2eutil.CreateBlock(ctx, dir, sp.series, sp.n, sp.mint, sp.maxt, extLset, 0, metadata.NoneFunc, nil)
+		if err != nil {
+			return fmt.Errorf("create block: %w", err)
+		}
+		bdir := filepath.Join(dir, id.String())
+		fb := fblock{id: id, mint: sp.mint, maxt: sp.maxt}
+		ir, err := index.NewFileReader(filepath.Join(bdir, "index"), index.DecodePostingsRaw)
+		if err != nil {
+			return err
+		}
+		k, v := index.AllPostingsKey()
+		ps, err := ir.Postings(ctx, k, v)
+		if err != nil {
+			return err
+		}
+		var b labels.ScratchBuilder
+		for ps.Next() {
+			var chks []chunks.Meta
+			if err := ir.Series(ps.At(), &b, &chks); err != nil {
+				return err
+			}
+			fb.series = append(fb.series, fseries{lset: b.Labels().Copy(), chks: append([]chunks.Meta(nil), chks...)})
+		}
+		ir.Close()
+		m, err := metadata.ReadFromDir(bdir)
+		if err != nil {
+			return err
+		}
+		fb.mint, fb.maxt = m.MinTime, m.MaxTime
+		f.blocks = append(f.blocks, fb)
+		if err := block.Upload(ctx, log.NewNopLogger(), bkt, bdir, metadata.NoneFunc); err != nil {
+			return fmt.Errorf("upload: %w", err)
+		}
+	}
+	for i := 0; i < 2; i++ {
+		sdir := filepath.Join(dir, fmt.Sprintf("store%d", i))
+		if err := os.MkdirAll(sdir, 0o755); err != nil {
+			return err
+		}
+		ins := objstore.WithNoopInstr(bkt)
+		mf, err := block.NewMetaFetcher(log.NewNopLogger(), 4, ins, block.NewConcurrentLister(log.NewNopLogger(), ins), sdir, nil, nil)
+		if err != nil {
+			return err
+		}
+		opts := []store.BucketStoreOption{}
+		if i == 1 {
+			opts = append(opts, store.WithSeriesBatchSize(2))
+		}
+		st, err := store.NewBucketStore(ins, mf, sdir,
+			func(c prometheus.Counter) store.ChunksLimiter {
+				return &recLimiter{inner: store.NewLimiter(f.clim, c), mtx: &f.mtx, log: &f.cres}
+			},
+			func(c prometheus.Counter) store.SeriesLimiter {
+				return &recLimiter{inner: store.NewLimiter(f.slim, c), mtx: &f.mtx, log: &f.sres}
+			},
+			store.NewBytesLimiterFactory(0),
+			store.NewGapBasedPartitioner(store.PartitionerMaxGapSize), 4, store.DefaultPostingOffsetInMemorySampling,
+			false, false, time.Minute, opts...)
+		if err != nil {
+			return err
+		}
+		sctx, cancel := context.WithTimeout(ctx, 60*time.Second)
+		err = st.SyncBlocks(sctx)
+		cancel()
+		if err != nil {
+			return fmt.Errorf("sync blocks: %w", err)
+		}
+		f.stores[i] = st
+	}
+	return nil
+}
+
+func promMatchers(ms []mreq) ([]*labels.Matcher, []storepb.LabelMatcher, error) {
+	var pm []*labels.Matcher
+	var sm []storepb.LabelMatcher
+	for _, m := range ms {
+		t, st := labels.MatchEqual, storepb.LabelMatcher_EQ
+		switch m.T {
+		case "!=":
+			t, st = labels.MatchNotEqual, storepb.LabelMatcher_NEQ
+		case "=~":
+			t, st = labels.MatchRegexp, storepb.LabelMatcher_RE
+		case "!~":
+			t, st = labels.MatchNotRegexp, storepb.LabelMatcher_NRE
+		}
+		x, err := labels.NewMatcher(t, m.N, m.V)
+		if err != nil {
+			return nil, nil, err
+		}
+		pm = append(pm, x)
+		sm = append(sm, storepb.LabelMatcher{Type: st, Name: m.N, Value: m.V})
+	}
+	return pm, sm, nil
+}
+
+func sortedCoq(xs []uint64) string {
+	ys := append([]uint64(nil), xs...)
+	sort.Slice(ys, func(i, j int) bool { return ys[i] < ys[j] })
+	s := make([]string, len(ys))
+	for i, y := range ys {
+		s[i] = common.N(y)
+	}
+	return common.List(s)
+}
+
+func runStore(in input) (common.Case, error) {
+	var c common.Case
+	if err := fx.init(); err != nil {
+		return c, err
+	}
+	pm, sm, err := promMatchers(in.Matchers)
+	if err != nil {
+		return c, err
+	}
+	// ground truth from the Prometheus index reader: per selected block, per series matched by the
+	// matchers (in postings order), the number of chunks in the time range
+	var blocksCoq []string
+	union := map[string]bool{}
+	var trueChunks uint64
+	for _, b := range fx.blocks {
+		if !(b.mint <= in.Maxt && in.Mint < b.maxt) || in.Mint > in.Maxt {
+			continue
+		}
+		var ks []string
+		for _, se := range b.series {
+			ok := true
+			for _, m := range pm {
+				v := se.lset.Get(m.Name)
+				if m.Name == "ext" {
+					v = "1"
+				}
+				if !m.Matches(v) {
+					ok = false
+					break
+				}
+			}
+			if !ok {
+				continue
+			}
+			var k uint64
+			for _, ch := range se.chks {
+				if ch.MinTime > in.Maxt {
+					break
+				}
+				if ch.MaxTime >= in.Mint {
+					k++
+				}
+			}
+			if in.SkipChunks && k > 0 {
+				k = 1 // only "has a chunk in range" matters
+			}
+			ks = append(ks, common.N(k))
+			if k > 0 {
+				union[se.lset.String()] = true
+				trueChunks += k
+			}
+		}
+		blocksCoq = append(blocksCoq, common.List(ks))
+	}
+	if in.SkipChunks {
+		trueChunks = 0
+	}
+	fx.mtx.Lock()
+	fx.slim, fx.clim = in.Limit, in.ChunkLimit
+	fx.sres, fx.cres = nil, nil
+	fx.mtx.Unlock()
+	st := fx.stores[0]
+	if in.SmallBatch {
+		st = fx.stores[1]
+	}
+	rec := &recorder{}
+	err = st.Series(&storepb.SeriesRequest{MinTime: in.Mint, MaxTime: in.Maxt, Matchers: sm, SkipChunks: in.SkipChunks,
+		MaxResolutionWindow: 0, PartialResponseStrategy: storepb.PartialResponseStrategy_ABORT}, rec)
+	var nser, nchk uint64
+	for _, r := range rec.got {
+		if se := r.GetSeries(); se != nil {
+			nser++
+			nchk += uint64(len(se.Chunks))
+		} else if b := r.GetBatch(); b != nil {
+			for _, se := range b.Series {
+				if se != nil {
+					nser++
+					nchk += uint64(len(se.Chunks))
+				}
+			}
+		}
+	}
+	code := "ok"
+	if err != nil {
+		code = status.Code(err).String()
+		if s, ok := status.FromError(err); ok {
+			code = s.Code().String()
+		}
+	}
+	exhausted := err != nil && code == codes.ResourceExhausted.String()
+	fx.mtx.Lock()
+	sres, cres := append([]uint64(nil), fx.sres...), append([]uint64(nil), fx.cres...)
+	fx.mtx.Unlock()
+	c.Coq = common.App("CStore", common.N(in.Limit), common.N(in.ChunkLimit), common.Bool(in.SkipChunks), common.List(blocksCoq),
+		common.Bool(err == nil), common.Bool(exhausted), sortedCoq(sres), sortedCoq(cres),
+		common.N(nser), common.N(nchk), common.N(uint64(len(union))), common.N(trueChunks))
+	c.Obs = map[string]any{"status": code, "series": nser, "chunks": nchk, "series_reservations": sres, "chunk_reservations": cres,
+		"true_series": len(union), "true_chunks": trueChunks}
+	c.Class = "store"
+	if in.SkipChunks {
+		c.Class = "store/skip-chunks"
+	}
+	c.Nontrivial = len(union) >= 2 && (in.Limit > 0 || in.ChunkLimit > 0)
+	if err == nil {
+		if in.Limit > 0 && nser > in.Limit {
+			c.GoPred, c.Sig = fmt.Sprintf("returned %d series with series limit %d", nser, in.Limit), "store-series-limit"
+		} else if in.ChunkLimit > 0 && nchk > in.ChunkLimit {
+			c.GoPred, c.Sig = fmt.Sprintf("returned %d chunks with chunk limit %d", nchk, in.ChunkLimit), "store-chunk-limit"
+		} else if nser != uint64(len(union)) || nchk != trueChunks {
+			c.GoPred, c.Sig = fmt.Sprintf("returned %d series / %d chunks, the blocks hold %d / %d for this request", nser, nchk, len(union), trueChunks), "store-truncated"
+		}
+	} else if !exhausted {
+		c.GoPred, c.Sig = "Series failed with "+code+": "+err.Error(), "store-other-error"
+	}
+	return c, nil
+}
+
 func run(raw json.RawMessage) (common.Case, error) {
 	var in input
 	if err := json.Unmarshal(raw, &in); err != nil {
@@ -90,6 +417,8 @@ func run(raw json.RawMessage) (common.Case, error) {
 	}
 	var c common.Case
 	switch in.Kind {
+	case "store":
+		return runStore(in)
 	case "limiter":
 		ctr := prometheus.NewCounter(prometheus.CounterOpts{Name: "x"})
 		l := store.NewLimiter(in.Limit, ctr)
@@ -192,7 +521,56 @@ func gen(r *rand.Rand, tier string, n int) []any {
 	if tier == "thorough" {
 		maxLen = 60
 	}
-	for i := 0; i < n; i++ {
+	nStore := n / 12 // every store case runs two real Series requests
+	for i := 0; i < nStore; i++ {
+		const h = int64(3600000)
+		in := input{Kind: "store", SkipChunks: r.Intn(5) == 0, SmallBatch: r.Intn(2) == 0}
+		in.Mint = int64(r.Intn(int(5*h))) - h/2
+		in.Maxt = in.Mint + int64(r.Intn(int(4*h)))
+		if r.Intn(4) == 0 {
+			in.Mint, in.Maxt = -h, 6*h
+		}
+		in.Matchers = [][]mreq{
+			{{"=~", "a", ".+"}},
+			{{"=", "a", "1"}},
+			{{"=~", "a", "1|3"}},
+			{{"=", "b", "1"}},
+			{{"=~", "a", ".+"}, {"!=", "b", "2"}},
+			{{"=", "a", "3"}, {"=~", "b", "1|4"}},
+			{{"=", "a", "9"}},
+			{{"=", "ext", "1"}, {"=", "b", "2"}},
+		}[r.Intn(8)]
+		// limits around the real reservation totals are found by a dry run with limits disabled
+		dry := in
+		dry.Limit, dry.ChunkLimit = 0, 0
+		var sTot, cTot uint64
+		if _, err := runStore(dry); err == nil {
+			fx.mtx.Lock()
+			for _, v := range fx.sres {
+				sTot += v
+			}
+			for _, v := range fx.cres {
+				cTot += v
+			}
+			fx.mtx.Unlock()
+		}
+		pick := func(tot uint64) uint64 {
+			switch r.Intn(5) {
+			case 0:
+				return 0
+			case 1:
+				return tot + 1 + uint64(r.Intn(20))
+			}
+			v := int64(tot) + int64(r.Intn(5)) - 2
+			if v < 1 {
+				v = 1
+			}
+			return uint64(v)
+		}
+		in.Limit, in.ChunkLimit = pick(sTot), pick(cTot)
+		out = append(out, in)
+	}
+	for i := 0; i < n-nStore; i++ {
 		if r.Intn(3) == 0 {
 			in := input{Kind: "limiter"}
 			k := r.Intn(maxLen)
